@@ -69,6 +69,14 @@ def check_msg(d, conts, t2, data_as='list'):
         out.append(fail('bin', f'{d!r}: bin()={m.bin()[:12]!r}', type=d['type']))
     if m.hex() != ' '.join('%02X' % b for b in want):
         out.append(fail('hex', f'{d!r}: hex()={m.hex()[:40]!r}', type=d['type']))
+    for sep in ('', ':', ', ', ' 0x', '\\x', 'zz'):
+        try:
+            if m.hex(sep) != sep.join('%02X' % b for b in want):
+                out.append(fail('hex', f'{d!r}: hex({sep!r})={m.hex(sep)[:40]!r}', type=d['type'], sep=sep))
+                break
+        except Exception as exc:  # noqa: BLE001
+            out.append(fail('hex', f'{d!r}: hex({sep!r}) raised {exc!r}', type=d['type'], sep=sep))
+            break
     expect = dict(d)
     expect['time'] = t2
     if 'data' in expect:
